@@ -5,8 +5,10 @@ import (
 	"fmt"
 	"os"
 	"runtime/debug"
+	"runtime"
 	"strconv"
 	"strings"
+	"sync"
 	"syscall"
 	"time"
 	_ "unsafe" // go:linkname
@@ -88,6 +90,14 @@ type hist struct {
 	lastNode        string // the node's verdict on the last delivered block
 	pendingFindings []finding
 	lastSub         *genTx // the tx being / last submitted
+
+	cm struct { // the call into the code under test that is in progress (read by the watchdog goroutine)
+		sync.Mutex
+		active bool
+		what   string
+		start  time.Time
+		retry0 uint64
+	}
 	maxEvNet        int
 }
 
@@ -150,6 +160,7 @@ func childMain(args []string) {
 			}
 		}()
 		h.setup(seed)
+		go h.watchdog()
 		if h.runHistory() {
 			status = "violation"
 		}
@@ -165,6 +176,65 @@ func childMain(args []string) {
 	os.WriteFile(base+".done", []byte(status), 0o644)
 	os.RemoveAll(base + ".dir")
 	os.Exit(0)
+}
+
+func retryCounter() uint64 {
+	common.CounterMutex.Lock()
+	defer common.CounterMutex.Unlock()
+	return common.Counter["TxRetryRjctd-202"] // txAccepted: a waiting orphan was retried and is still without its input
+}
+
+func (h *hist) enter(what string) {
+	r := retryCounter()
+	h.cm.Lock()
+	h.cm.active, h.cm.what, h.cm.start, h.cm.retry0 = true, what, time.Now(), r
+	h.cm.Unlock()
+}
+
+func (h *hist) leave() {
+	h.cm.Lock()
+	h.cm.active = false
+	h.cm.Unlock()
+}
+
+// watchdog runs in its own goroutine. Count-based criterion (decides): within ONE call into the code
+// under test the orphan-retry counter advanced by more than a million although the reject cache
+// holds at most a few thousand transactions => txAccepted retries the same orphan without bound.
+// Wall-clock criterion (never decides): a single call lasting minutes => inconclusive.
+func (h *hist) watchdog() {
+	for {
+		time.Sleep(200 * time.Millisecond)
+		h.cm.Lock()
+		active, what, start, r0 := h.cm.active, h.cm.what, h.cm.start, h.cm.retry0
+		h.cm.Unlock()
+		if !active {
+			continue
+		}
+		d := retryCounter() - r0
+		if d > 1000000 {
+			buf := make([]byte, 1<<16)
+			buf = buf[:runtime.Stack(buf, true)]
+			st := string(buf)
+			if i := strings.Index(st, "goroutine 1 "); i >= 0 {
+				st = st[i:]
+			}
+			fn := firstTxpoolFrame(st)
+			h.run.Violation("no-return/"+fn+"/orphan-retried-without-bound",
+				fmt.Sprintf("a single call (%s) into the node did not return: txAccepted re-submitted a waiting orphan %d times within that call (the orphan is put back under the same parent and picked up again)", what, d),
+				h.witness(nil, map[string]interface{}{"retries_in_this_call": d, "call": what, "stack_of_main_goroutine": cut(st, 3500)}))
+			h.run.ExportState(h.base + ".state")
+			os.WriteFile(h.base+".done", []byte("violation"), 0o644)
+			os.Exit(0)
+		}
+		if time.Since(start) > 4*time.Minute {
+			buf := make([]byte, 1<<16)
+			buf = buf[:runtime.Stack(buf, true)]
+			h.run.Inconclusive("history %d step %d (%s): call %s did not return within 4 minutes; stack: %s", h.prof.idx, h.step, h.kind, what, cut(string(buf), 1500))
+			h.run.ExportState(h.base + ".state")
+			os.WriteFile(h.base+".done", []byte("stalled"), 0o644)
+			os.Exit(0)
+		}
+	}
 }
 
 func cut(s string, n int) string {
@@ -232,6 +302,8 @@ func (h *hist) setup(seed int64) {
 // CheckBlock, then the commit bracketed by txpool.BlockCommitInProgress, then common.Last and the
 // script flags are updated.
 func (h *hist) nodeDeliver(raw []byte) chainsim.DeliverResult {
+	h.enter("deliver block")
+	defer h.leave()
 	ch := h.node.Ch
 	bl, er := btc.NewBlock(raw)
 	if er != nil {
@@ -333,6 +405,8 @@ func (h *hist) submit(x *genTx, path string) int {
 	}
 	h.note("submit %s family=%s path=%s raw=%s", x.id, x.family, path, hexs)
 	h.lastSub = x
+	h.enter("submit " + path + " " + x.family)
+	defer h.leave()
 	res := -1
 	tx, le := btc.NewTx(x.raw)
 	if tx == nil || le != len(x.raw) || len(tx.TxIn) < 1 {
